@@ -64,6 +64,12 @@ pub struct TextSpec {
     pub uses: Vec<String>,
     pub template_use: Option<String>,
     pub fault: Option<Fault>,
+    /// identifies the fault (unique when created, STABLE across later edits of the file, so
+    /// that the same problem can persist while the text around it changes)
+    pub fault_id: u32,
+    /// the fault statement sits on the same line as the statement before it (a blank of the
+    /// same byte length replaces the line break: byte offsets stay, line/column change)
+    pub joined: bool,
     pub eol: Eol,
     pub alphabet: Alphabet,
     /// put a string-literal field with non-ASCII text on the same line before an identifier
@@ -94,7 +100,7 @@ impl TextSpec {
         for inc in &self.includes {
             s.push_str(&format!("include \"{inc}\"{e}"));
         }
-        s.push_str(&format!("class V_{n};{e}"));
+        s.push_str(&format!("class V_{n:04};{e}"));
         if self.inline_wide {
             s.push_str(&format!(
                 "class K_{k} {{ string s = \"{}\"; int x = 1; }}{e}",
@@ -111,10 +117,17 @@ impl TextSpec {
         if let Some(u) = &self.template_use {
             s.push_str(&format!("def DT_{k}_{u} : T_{u}<3>;{e}"));
         }
+        if self.fault.is_some() && self.joined {
+            // replace the last line break by blanks of the same length
+            let cut = s.len() - e.len();
+            s.truncate(cut);
+            s.push_str(&" ".repeat(e.len()));
+        }
+        let f = self.fault_id;
         match &self.fault {
-            Some(Fault::UndefinedClass) => s.push_str(&format!("def E_{n} : U_{n};{e}")),
-            Some(Fault::Syntax) => s.push_str(&format!("class S_{n} {{ int }}{e}")),
-            Some(Fault::MissingInclude) => s.push_str(&format!("include \"missing_{n}.td\"{e}")),
+            Some(Fault::UndefinedClass) => s.push_str(&format!("def E_{f} : U_{f};{e}")),
+            Some(Fault::Syntax) => s.push_str(&format!("class S_{f} {{ int }}{e}")),
+            Some(Fault::MissingInclude) => s.push_str(&format!("include \"missing_{f}.td\"{e}")),
             None => {}
         }
         s
@@ -220,9 +233,12 @@ pub fn gen_text(rng: &mut Rng, vs: &mut Versions, key: &str, includable: &[&str]
     } else {
         None
     };
+    let version = vs.next();
     TextSpec {
         key: key.to_string(),
-        version: vs.next(),
+        version,
+        fault_id: version,
+        joined: rng.chance(1, 4),
         lead: rng.below(cfg.max_lead + 1),
         includes,
         uses,
@@ -238,7 +254,8 @@ pub fn gen_text(rng: &mut Rng, vs: &mut Versions, key: &str, includable: &[&str]
 pub fn edit_text(rng: &mut Rng, vs: &mut Versions, prev: &TextSpec, includable: &[&str], cfg: &GenCfg) -> TextSpec {
     let mut t = prev.clone();
     t.version = vs.next();
-    match rng.below(7) {
+    match rng.below(8) {
+        7 => t.joined = !t.joined,
         0 if !includable.is_empty() => {
             // toggle an include
             let o = *rng.pick(includable);
@@ -254,6 +271,7 @@ pub fn edit_text(rng: &mut Rng, vs: &mut Versions, prev: &TextSpec, includable: 
         }
         1 if cfg.allow_faults => {
             // add / fix a fault
+            t.fault_id = t.version;
             t.fault = match t.fault {
                 Some(_) => None,
                 None => Some(if cfg.allow_syntax_fault && rng.chance(1, 3) {
